@@ -58,6 +58,12 @@ func (s *listSite) elemKeys(cfg *lib.Cfg, ent reflect.Value) string {
 // findListSites generates trees until every list field type of the
 // configuration (ordered or plain, as requested) has been seen once.
 func findListSites(cfg *lib.Cfg, seed int64, kind lib.Kind, domain int) []*listSite {
+	return findListSitesOpt(cfg, seed, kind, domain, false)
+}
+
+// findListSitesOpt: with hostileKeys the key domains also hold hostile strings
+// and decimals that need 16-17 significant digits.
+func findListSitesOpt(cfg *lib.Cfg, seed int64, kind lib.Kind, domain int, hostileKeys bool) []*listSite {
 	seen := map[string]bool{}
 	var out []*listSite
 	for i := 0; i < 60; i++ {
@@ -92,7 +98,10 @@ func findListSites(cfg *lib.Cfg, seed int64, kind lib.Kind, domain int) []*listS
 				}
 				s := &listSite{root: t, node: n, f: f, esi: esi, kfs: kfs, lname: f.GoName}
 				// key domain
-				kg := lib.NewGen(cfg, seed, i*7+len(out), opt)
+				kopt := opt
+				kopt.Hostile = hostileKeys
+				kopt.PreciseDecimals = hostileKeys
+				kg := lib.NewGen(cfg, seed, i*7+len(out), kopt)
 				ids := map[string]bool{}
 				for tries := 0; len(s.tuples) < domain && tries < 200; tries++ {
 					ent := reflect.New(f.Elem.Elem())
